@@ -83,7 +83,7 @@ def _c06_units():
             names["D_GCM_ENC_" + k] = unit_macro(arch, "AES_GCM_ENC_IV_" + k)
             names["D_GCM_DEC_" + k] = unit_macro(arch, "AES_GCM_DEC_IV_" + k)
         for entry in ("h_submit_cipher", "h_flush_cipher", "h_submit_hash", "h_flush_hash", "h_call_suite"):
-            add(Unit(name="c06_%s_%s" % (entry[2:], arch), harness="c06_dispatch.c", entry=entry, props={"C06": "spec"},
+            add(Unit(name="c06_%s_%s" % (entry[2:], arch), harness="c06_dispatch.c", entry=entry, props={"C06": "spec", "C09": "tag"},
                      dfcc=False, add_library=False,
                      remove_bodies=[names[k] for k in ("D_SUBMIT_ENC", "D_SUBMIT_DEC", "D_FLUSH_ENC", "D_FLUSH_DEC", "D_SUBMIT_HASH", "D_FLUSH_HASH")],
                      stub_src=["stubs/c06_dispatch_stubs.c"],
@@ -260,7 +260,7 @@ for _arch, (_f, _tier) in ARCHS.items():
 SLICES["C02"] = ("SHA-1/224/256/384/512 one-shot wrappers of every variant (sha_generic): FIPS 180-4 padding, length field, block count, initial hash value, "
                  "big-endian truncated digest, over an uninterpreted compression function")
 ASSUMPTIONS["C02"] = ["compression functions (NASM) are uninterpreted; HMAC/CMAC/XCBC/ZUC/SNOW3G/KASUMI/Poly1305/CRC kernels are assembly",
-                      "message length bounded to 2*block+17 bytes in these units (labelled bounded)"]
+                      "message length bounded to 2*block+17 bytes in the units labelled bounded; the *_any_len units have no length bound but leave the initial-hash-value clause to the bounded ones"]
 _SHA_FILES = [("sse_t1/sha_sse.c", "sse", [1, 224, 256, 384, 512], "quick"), ("avx2_t1/sha_avx2.c", "avx2", [1, 224, 256, 384, 512], "quick"),
               ("avx512_t1/sha_avx512.c", "avx512", [1, 224, 256, 384, 512], "quick"), ("sse_t2/sha_ni_sse.c", "sse_shani", [1, 224, 256], "quick"),
               ("avx2_t4/sha_ni_avx2.c", "ni_avx2", [384, 512], "thorough")]
@@ -274,7 +274,250 @@ for _f, _sfx, _types, _tier in _SHA_FILES:
                  sources=["lib/" + _f, "lib/include/sha_generic.h"], trusted=["one-block compression kernels (NASM) uninterpreted", "force_memset_zero modelled as memset"],
                  bounded="message length 0..2*block+17 bytes (all contents, all residues incl. 55/56/64 and 111/112/128)",
                  slice="FIPS 180-4 framing of sha%d on %s" % (_t, _sfx)))
+    for _t in _types:
+        _defs = ['SHA_FILE="%s"' % _f, "SFX=" + _sfx, "SHA_UNBOUNDED"] + ([] if len(_types) == 5 else ["ONLY_TYPES", "HAVE_%d" % _t])
+        add(Unit(name="c02_sha%d_%s_any_len" % (_t, _sfx), harness="c02_sha.c", entry="h_sha%d" % _t, loopgen="c02_sha_generic",
+                 props={"C02": "tag", "C06": "tag", "C07": "tag", "C08": "tag"}, dfcc=False,
+                 defines=_defs + (["SMX_NI"] if "avx2_t4" in _f else []), unwind=140, timeout=900, tier=("quick" if _sfx == "sse" else "thorough"),
+                 checks=("--no-standard-checks",), probes=["1000-block message"], min_obligations=8,
+                 functions=["sha%d_%s" % (_t, _sfx), "sha_generic", "sha_generic_write_digest", "sha_generic_one_block"],
+                 sources=["lib/" + _f, "lib/include/sha_generic.h"],
+                 trusted=["one-block compression kernels (NASM): checking contract models (arbitrary chaining value)", "force_memset_zero modelled as memset",
+                          "message limited to 2^32 bytes only to keep the harness allocation finite (the block loop is closed by an invariant)"],
+                 slice="FIPS 180-4 framing of sha%d on %s for messages of ANY length (loop contract on the full-block loop; padding blocks by ghost byte)" % (_t, _sfx)))
     if len(_types) == 5:
         add(Unit(name="c02_sha_null_%s" % _sfx, harness="c02_sha.c", entry="h_sha_null", props={"C12": "tag"}, dfcc=False,
                  defines=['SHA_FILE="%s"' % _f, "SFX=" + _sfx], unwind=140, timeout=600, tier=_tier, probes=[],
                  functions=["sha*_%s NULL checks" % _sfx], sources=["lib/" + _f, "lib/include/sha_generic.h"]))
+
+
+# ---------------------------------------------------------------- C06 binding layer (dispatcher C code + generated kernel stubs)
+def _bind_units():
+    for arch, (f, tier) in ARCHS.items():
+        if arch in ("avx512_t1", "avx2_t1"):
+            tier = "quick"   # the type-1 AVX units carry their own C glue (DOCSIS CRC32 decrypt paths) not shared with the quick trio
+        rm = ["submit_cipher_burst_and_check", "submit_hash_burst_and_check", "submit_aead_burst_and_check", "submit_burst_and_check"] + \
+             [unit_macro(arch, m) for m in ("FLUSH_BURST", "GET_NEXT_BURST", "FLUSH_JOB", "SUBMIT_JOB", "SUBMIT_JOB_NOCHECK")]
+        add(Unit(name="c06_bind_cipher_%s" % arch, harness="c06_binding.c", entry="h_bind_cipher",
+                 props={"C06": "tag", "C14": "tag", "C04": "tag", "C08": "tag"}, dfcc=False, add_library=False, autostub=True,
+                 remove_bodies=rm, stub_src=["stubs/empty.c"],
+                 defines=['UNIT_FILE="%s"' % f, "VARIANT_INIT=init_mb_mgr_%s_internal" % arch],
+                 checks=("--no-standard-checks",), unwind=10, timeout=1500, tier=tier,
+                 probes=["DOCSIS decrypt with a generic", "failing custom cipher"],
+                 functions=[unit_macro(arch, "SUBMIT_JOB_CIPHER_ENC"), unit_macro(arch, "SUBMIT_JOB_CIPHER_DEC"), "docsis/custom/GCM/SNOW-V/CTR/CFB/ECB glue of " + arch],
+                 trusted=["every function without a C body: generated logging stub classified by symbol name (vlib/stubgen.py)",
+                          "SM4-GCM glue excluded from this unit"],
+                 sources=["lib/" + f, "lib/include/mb_mgr_job_api.h", "lib/include/job_api_docsis.h", "lib/include/docsis_common.h"],
+                 slice="cipher stage of every accepted job: kernels called, status added, descriptor frame (variant %s)" % arch))
+        add(Unit(name="c06_bind_hash_%s" % arch, harness="c06_binding.c", entry="h_bind_hash",
+                 props={"C06": "tag", "C14": "tag", "C04": "tag"}, dfcc=False, add_library=False, autostub=True,
+                 remove_bodies=rm, stub_src=["stubs/empty.c"],
+                 defines=['UNIT_FILE="%s"' % f, "VARIANT_INIT=init_mb_mgr_%s_internal" % arch],
+                 checks=("--no-standard-checks",), unwind=10, timeout=1500, tier=tier,
+                 probes=["CMAC bit-length hash stage", "failing custom hash"],
+                 functions=["SUBMIT_JOB_HASH_EX", "CRC/GMAC/GHASH/CMAC glue of " + arch],
+                 trusted=["every function without a C body: generated logging stub classified by symbol name (vlib/stubgen.py)"],
+                 sources=["lib/" + f, "lib/include/mb_mgr_job_api.h"],
+                 slice="hash stage of every accepted job: kernels called, status added, descriptor frame (variant %s)" % arch))
+        add(Unit(name="c04_bind_flush_%s" % arch, harness="c06_binding.c", entry="h_bind_flush",
+                 props={"C04": "tag", "C06": "tag", "C14": "tag"}, dfcc=False, add_library=False, autostub=True,
+                 remove_bodies=rm, stub_src=["stubs/empty.c"],
+                 defines=['UNIT_FILE="%s"' % f, "VARIANT_INIT=init_mb_mgr_%s_internal" % arch],
+                 checks=("--no-standard-checks",), unwind=10, timeout=1500, tier=tier, probes=["custom-cipher job already ciphered"],
+                 functions=[unit_macro(arch, "FLUSH_JOB_CIPHER_ENC"), "FLUSH_JOB_CIPHER_DEC", "FLUSH_JOB_HASH_EX"],
+                 trusted=["every function without a C body: generated logging stub / abstract lane model (vlib/stubgen.py)"],
+                 sources=["lib/" + f, "lib/include/mb_mgr_job_api.h"],
+                 slice="flush of either stage for every accepted queued job (variant %s)" % arch))
+
+
+_bind_units()
+
+
+# ---------------------------------------------------------------- C04 stage sequencing
+SLICES["C04"] = ("stage-level independence in C: a flush never re-offers a finished stage, each stage adds exactly its bit, hands back the submitted job / a parked job / nothing; "
+                 "lane isolation inside the NASM out-of-order managers is not decidable here")
+ASSUMPTIONS["C04"] = ["NASM out-of-order managers: abstract lane model (a manager hands back only jobs parked in it, with exactly its stage added)",
+                      "the whole-chain sequencing harness (harness/c04_chain.c: submit_new_job/RESUBMIT_JOB/complete_job over a 2-manager lane model) does not finish within 20 min and is NOT registered"]
+
+# ---------------------------------------------------------------- C01 / C11 DES family in C
+SLICES["C01"] = ("KASUMI f8 chaining (any length, loop contract); DES/3DES-CBC chaining for any length (loop contracts); DES-CBC, 3DES-CBC, DOCSIS-DES (the C implementation bound by all SSE and AVX2 variants): block function = FIPS 46-3 for all blocks/round keys/directions; "
+                 "CBC/E-D-E/residual-CFB chaining over an uninterpreted block function (bounded number of blocks); every other cipher is NASM")
+ASSUMPTIONS["C01"] = ["constant-time lookup primitives and memcpy_fn_sse_128 (NASM) modelled by their documented effect",
+                      "AES*, ChaCha20, ZUC, SNOW3G, KASUMI, SNOW-V, SM4 kernels are assembly or intrinsics: not decided"]
+SLICES["C11"] = "DES key schedule = FIPS 46-3 PC-1 / shifts / PC-2 for all 2^64 keys in the layout the block function consumes; NULL handling"
+ASSUMPTIONS["C11"] = ["AES/SM4/KASUMI/SNOW3G key schedules and hash-key precomputation are assembly: not decided"]
+_DES_TRUST = ["lookup_32bit_sse (NASM) = table[idx]", "memcpy_fn_sse_128 (NASM) copies 128 bytes", "force_memset_zero (NASM) zeroes"]
+add(Unit(name="c11_des_key_schedule", harness="c01_des.c", entry="h_des_key_schedule", props={"C11": "tag", "C13": "tag", "C14": "tag"}, dfcc=False,
+         unwind=66, timeout=900, checks=("--no-standard-checks",), probes=["last round key watched"], functions=["des_key_schedule", "permute_64b", "rotate28", "expand_8x6_to_8x8", "load64_reflect"],
+         sources=["lib/x86_64/des_key.c", "lib/include/des_utils.h"], trusted=_DES_TRUST, slice="all 2^64 keys, arbitrary round (ghost index)"))
+add(Unit(name="c11_des_key_schedule_null", harness="c01_des.c", entry="h_des_key_schedule_null", props={"C12": "tag"}, dfcc=False,
+         unwind=66, timeout=300, checks=("--no-standard-checks",), probes=[], functions=["des_key_schedule"], sources=["lib/x86_64/des_key.c"]))
+add(Unit(name="c01_des_block", harness="c01_des.c", entry="h_des_block", props={"C01": "tag", "C13": "tag", "C19": "tag"}, dfcc=False,
+         unwind=66, timeout=2400, mem_gb=24, checks=("--no-standard-checks",), probes=["encrypt direction reachable"],
+         functions=["enc_dec_1", "fRK", "e_phase", "ip_z", "fp_z", "permute_operation"], sources=["lib/x86_64/des_basic.c"], trusted=_DES_TRUST, weight=2,
+         slice="all 2^64 blocks x all 16x48-bit round keys x both directions"))
+for _e, _fns in (("h_des_cbc", ["des_enc_cbc_basic", "des_dec_cbc_basic"]), ("h_des3_cbc", ["des3_enc_cbc_basic", "des3_dec_cbc_basic"]),
+                 ("h_docsis_des", ["docsis_des_enc_basic", "docsis_des_dec_basic", "cfb_one_basic"])):
+    add(Unit(name="c01_" + _e[2:] + "_5blk", harness="c01_des.c", entry=_e, props={"C01": "tag", "C03": "tag", "C07": "tag", "C14": "tag"}, dfcc=False,
+             defines=["CHAIN_UNIT", "MAXB=5"], replace_calls=[("enc_dec_1", "model_enc_dec_1")], unwind=66, timeout=3000, mem_gb=24, checks=("--no-standard-checks",),
+             probes=["longest in-place message"], functions=_fns, sources=["lib/x86_64/des_basic.c"], tier="thorough",
+             trusted=["enc_dec_1 replaced by an uninterpreted function of (block, schedule, direction); interpreted by unit c01_des_block"] + _DES_TRUST,
+             bounded="message length 0..47 bytes (up to 5 blocks + residue); all contents, IVs, in-place and out-of-place",
+             slice="chaining and residual termination, longer messages"))
+    add(Unit(name="c01_" + _e[2:], harness="c01_des.c", entry=_e, props={"C01": "tag", "C03": "tag", "C07": "tag", "C14": "tag"}, dfcc=False,
+             defines=["CHAIN_UNIT"], replace_calls=[("enc_dec_1", "model_enc_dec_1")], unwind=66, timeout=900, checks=("--no-standard-checks",),
+             probes=["longest in-place message"], functions=_fns, sources=["lib/x86_64/des_basic.c"],
+             trusted=["enc_dec_1 replaced by an uninterpreted function of (block, schedule, direction); interpreted by unit c01_des_block"] + _DES_TRUST,
+             bounded="message length 0..31 bytes (up to 3 blocks + residue); all contents, IVs, in-place and out-of-place",
+             slice="chaining and residual termination"))
+
+add(Unit(name="c11_iv_gen", harness="c11_iv.c", entry="h_iv_gen", props={"C11": "tag", "C12": "tag", "C07": "tag"}, dfcc=False, unwind=26, timeout=600,
+         checks=("--bounds-check", "--pointer-check"), probes=["EIA3 direction byte 14"],
+         functions=["zuc_eea3_iv_gen", "zuc_eia3_iv_gen", "snow3g_f8_iv_gen", "snow3g_f9_iv_gen", "kasumi_f8_iv_gen", "kasumi_f9_iv_gen"],
+         sources=["lib/x86_64/zuc_iv.c", "lib/x86_64/snow3g_iv.c", "lib/x86_64/kasumi_iv.c"], trusted=["memset/memcpy (CBMC models)"],
+         slice="all count/bearer/direction/fresh values, arbitrary byte of the buffer"))
+add(Unit(name="c11_iv_gen_null", harness="c11_iv.c", entry="h_iv_gen_null", props={"C12": "tag"}, dfcc=False, unwind=26, timeout=300, probes=[],
+         functions=["*_iv_gen NULL checks"], sources=["lib/x86_64/zuc_iv.c", "lib/x86_64/snow3g_iv.c", "lib/x86_64/kasumi_iv.c"]))
+
+add(Unit(name="c11_hmac_ipad_opad", harness="c11_hmac.c", entry="h_hmac_ipad_opad", props={"C11": "tag", "C12": "tag", "C13": "tag", "C14": "tag"}, dfcc=False,
+         unwind=165, timeout=900, checks=("--bounds-check", "--pointer-check"), probes=["over-long SHA-384 key"], functions=["imb_hmac_ipad_opad"],
+         sources=["lib/x86_64/hmac_ipad_opad.c"], trusted=["hash entry points reached through IMB_MGR handlers: logging models", "safe_memcpy/imb_clear_mem (NASM) modelled"],
+         bounded="key length 0..160 bytes (every block size, the over-long branch and its boundary)", slice="RFC 2104 key preparation"))
+add(Unit(name="c11_hmac_ipad_opad_null", harness="c11_hmac.c", entry="h_hmac_ipad_opad_null", props={"C12": "tag"}, dfcc=False, unwind=165, timeout=300, probes=[],
+         functions=["imb_hmac_ipad_opad NULL checks"], sources=["lib/x86_64/hmac_ipad_opad.c"]))
+
+
+# ---------------------------------------------------------------- C10 / C03 ChaCha20-Poly1305 segmentation
+SLICES["C10"] = ("ChaCha20-Poly1305 SGL/direct update, finalize and job-API complete: representation invariant => the Poly1305 input stream is independent of the segmentation; AES-GCM SGL job dispatch: IMB_SGL_ALL == INIT/UPDATE*/COMPLETE primitive sequence for any segment list")
+ASSUMPTIONS["C10"] = ["ChaCha20 key-stream continuity across segments (remain_ks_bytes/last_ks) lives in the NASM kernels: assumed", "GCM carry state between update calls (partial block, counter) is assembly: equal primitive sequences => equal bytes is assumed", "CBMC run with --no-simplify on the GCM-SGL unit (its expression simplifier loses the target of a pointer read from a non-first union member of IMB_JOB)"]
+SLICES["C03"] = "C glue of ChaCha20-Poly1305 (Poly input order, length block, tag), DOCSIS-DES residual termination; AEAD kernels themselves are NASM"
+ASSUMPTIONS["C03"] = ["AES-GCM/CCM/PON/SNOW-V/ChaCha20/Poly1305 kernels are assembly: not decided"]
+for _e, _p in (("h_update", "straddling segment"), ("h_finalize", "finalize with pending tail"), ("h_complete", "short final segment")):
+    add(Unit(name="c10_chacha_poly_" + _e[2:], harness="c10_chacha.c", entry=_e, props={"C10": "tag", "C03": "tag", "C07": "tag", "C13": "tag"}, dfcc=False,
+             unwind=66, timeout=900, checks=("--no-standard-checks",), probes=[_p],
+             bounded=("segment length 0..48 bytes per call (any number of calls by induction over the invariant)" if _e != "h_finalize" else None),
+             functions=[{"h_update": "update_chacha20_poly1305_direct", "h_finalize": "finalize_chacha20_poly1305_direct", "h_complete": "complete_chacha20_poly1305"}[_e], "poly1305_aead_update", "memcpy_asm", "chacha20_enc_dec_ks"],
+             sources=["lib/x86_64/chacha20_poly1305.c"], trusted=["ChaCha20 / Poly1305 / 16-byte copy kernels (NASM): logging models"],
+             slice="all context states satisfying the invariant, both directions, in place or not"))
+
+add(Unit(name="c10_gcm_sgl", harness="c10_gcm_sgl.c", entry="h_gcm_sgl", props={"C10": "tag", "C06": "tag", "C14": "tag"}, dfcc=False, loopgen="c10_gcm_sgl",
+         defines=["GCM_SGL_MAX_SEGS=1048576"], timeout=900, checks=("--no-standard-checks",), cbmc_flags=("--no-simplify",), probes=["SGL_ALL with 3 segments"],
+         min_obligations=10,
+         functions=["submit_gcm_sgl_enc", "submit_gcm_sgl_dec"], sources=["lib/include/job_api_gcm.h"],
+         trusted=["AES-GCM init/update/finalize primitives (NASM) replaced by checking contract models; equal primitive sequences => equal output is a property of those primitives",
+                  "segment count limited to 2^20 only to keep the harness allocation finite (loops closed by invariants, not unwound)"],
+         slice="every SGL job form, key size, direction, any number of segments (loop contracts generated per run from the symbol table: vlib/loopgen.py)"))
+
+
+# ---------------------------------------------------------------- C02/C04/C13 multi-buffer SHA manager in C
+_MB = {
+  "sha1_ni_x2": dict(file="sse_t2/sha_ni_mb_sse.c", defs=["MB_STATE=MB_MGR_SHA_1_OOO", "MB_ARGS=SHA1_ARGS", "MB_LANES=2", "MB_BLK=64", "MB_LENFIELD=8", "MB_TYPE=1", "MB_WORD=4",
+        "MB_DIGEST_BYTES=20", "MB_DIGEST_WORDS_STATE=5", "MB_DIGEST_IDX(lane,w)=(5*(lane)+(w))", "MB_KERNEL=call_sha1_ni_x2_sse_from_c", "MB_RESET=ooo_mgr_sha1_reset",
+        "MB_SUBMIT=submit_job_sha1_ni_sse", "MB_FLUSH=flush_job_sha1_ni_sse", "MB_PAD=8", "MB_XBLK=sha1_create_extra_blocks", "MB_STATE_LANES=16"]),
+  "sha512_x2": dict(file="sse_t1/sha_mb_sse.c", defs=["MB_STATE=MB_MGR_SHA_512_OOO", "MB_ARGS=SHA512_ARGS", "MB_LANES=2", "MB_BLK=128", "MB_LENFIELD=16", "MB_TYPE=512", "MB_WORD=8",
+        "MB_DIGEST_BYTES=64", "MB_DIGEST_WORDS_STATE=8", "MB_DIGEST_IDX(lane,w)=((lane)+(w)*8)", "MB_KERNEL=call_sha512_x2_sse_from_c", "MB_RESET=ooo_mgr_sha512_reset",
+        "MB_SUBMIT=submit_job_sha512_sse", "MB_FLUSH=flush_job_sha512_sse", "MB_PAD=16", "MB_XBLK=sha512_create_extra_blocks", "MB_STATE_LANES=8"]),
+  "sha384_x2": dict(file="sse_t1/sha_mb_sse.c", defs=["MB_STATE=MB_MGR_SHA_512_OOO", "MB_ARGS=SHA512_ARGS", "MB_LANES=2", "MB_BLK=128", "MB_LENFIELD=16", "MB_TYPE=384", "MB_WORD=8",
+        "MB_DIGEST_BYTES=48", "MB_DIGEST_WORDS_STATE=8", "MB_DIGEST_IDX(lane,w)=((lane)+(w)*8)", "MB_KERNEL=call_sha512_x2_sse_from_c", "MB_RESET=ooo_mgr_sha512_reset",
+        "MB_SUBMIT=submit_job_sha384_sse", "MB_FLUSH=flush_job_sha384_sse", "MB_PAD=16", "MB_XBLK=sha512_create_extra_blocks", "MB_STATE_LANES=8"]),
+}
+for _n, _c, _maxlen, _uw, _tier in (("sha1_ni_x2", _MB["sha1_ni_x2"], 70, 6, "quick"), ("sha1_ni_x2", _MB["sha1_ni_x2"], 134, 8, "thorough"),
+                                    ("sha512_x2", _MB["sha512_x2"], 140, 6, "thorough"), ("sha384_x2", _MB["sha384_x2"], 140, 6, "thorough")):
+    _blk = int([d for d in _c["defs"] if d.startswith("MB_BLK=")][0][7:])
+    _xblk = [d for d in _c["defs"] if d.startswith("MB_XBLK=")][0][8:]
+    add(Unit(name="c02_sha_mb_%s_%d" % (_n, _maxlen), harness="c02_sha_mb.c", entry="h_sha_mb", props={"C02": "tag", "C04": "tag", "C13": "tag"},
+             dfcc=False, defines=['MB_FILE="%s"' % _c["file"], "MB_MAXLEN=%d" % _maxlen] + _c["defs"], unwind=max(_maxlen + 12, 2 * _blk + 20),
+             replace_calls=[(_xblk, "contract_create_extra_blocks")],
+             unwindset=["submit_flush_job_sha_1.4:%d" % _uw, "submit_flush_job_sha_256.4:%d" % _uw, "submit_flush_job_sha_512.4:%d" % _uw,
+                        "kernel_model.0:9", "kernel_model.1:3", "job_of_lane.0:3", "check_done.0:3"],
+             timeout=3600, mem_gb=30, weight=4, checks=("--no-standard-checks",), cbmc_flags=("--max-field-sensitivity-array-size", "63"),
+             probes=["short job overtaking"], tier=_tier,
+             functions=["submit_flush_job_sha_1/512 (" + _n + ")", "sha_(ni_)mb_generic_init/write_digest", "ooo_mgr_sha*_reset"],
+             sources=["lib/include/sha_mb_mgr.h", "lib/" + _c["file"], "lib/x86_64/ooo_mgr_reset.c"],
+             trusted=["multi-lane SHA compression kernel (NASM) modelled: consumes nblocks per lane, advances data pointers, leaves arbitrary digest columns",
+                      _xblk + " replaced by its contract (proved equal to the real function, all lanes / tails, by units c02_sha_xblk_*)"],
+             bounded="history = 2 submits then flush until empty on a 2-lane manager; message lengths 0..%d bytes each, hash offsets 0..8, all contents" % _maxlen,
+             slice="lane isolation, padding, digest column and lane bookkeeping of the C SHA manager"))
+for _n in ("sha1_ni_x2", "sha512_x2"):
+    _c = _MB[_n]
+    _blk = int([d for d in _c["defs"] if d.startswith("MB_BLK=")][0][7:])
+    _xblk = [d for d in _c["defs"] if d.startswith("MB_XBLK=")][0][8:]
+    _nl = int([d for d in _c["defs"] if d.startswith("MB_STATE_LANES=")][0][15:])
+    for _l in range(_nl):
+        add(Unit(name="c02_sha_xblk_%s_l%d" % (_xblk.split("_")[0], _l), harness="c02_sha_mb.c", entry="h_sha_xblk", props={"C02": "tag", "C04": "tag", "C07": "safety"},
+                 dfcc=False, defines=['MB_FILE="%s"' % _c["file"], "MB_UNIT_XBLK", "XBLK_LANE=%d" % _l] + _c["defs"], unwind=2 * _blk + 20, timeout=900, mem_gb=8,
+                 probes=["two-extra-block case"], functions=[_xblk, "var_memcpy", "store8_be"], sources=["lib/include/sha_mb_mgr.h", "lib/include/sha_generic.h"],
+                 trusted=["memset (CBMC model)"], tier=("quick" if _l in (0, 1, _nl - 1) else "thorough"),
+                 slice="the real function against its functional contract on the whole manager, one unit per lane index (all %d lanes in the thorough tier): all tail lengths r < block, one or two extra blocks, all contents; loops are bounded by the block size, fully unwound with unwinding assertions = complete" % _nl))
+
+
+# ---------------------------------------------------------------- C01 KASUMI f8 (C code shared by all variants)
+add(Unit(name="c01_kasumi_f8_chain", harness="c01_kasumi.c", entry="h_kasumi_f8", props={"C01": "tag"}, dfcc=False, loopgen="c01_kasumi_f8",
+         defines=["KAS_LOOPCONTRACT"], replace_calls=[("kasumi_1_block", "contract_kasumi_1_block")], unwind=3, timeout=1200, mem_gb=16,
+         checks=("--no-standard-checks",), probes=["last block of the longest message"], min_obligations=10,
+         functions=["kasumi_f8_1_buffer", "kasumi_f8_1_buffer_sse"], sources=["lib/include/kasumi_internal.h", "lib/sse_t1/kasumi_sse.c"],
+         trusted=["kasumi_1_block (KASUMI block function, TS 35.202) replaced by a checking contract model: not decided here"],
+         slice="f8 chaining (modifier, BLKCNT, feedback) and block count for every accepted length 1..2500 bytes: loop contract generated per run, no unwinding"))
+for _ip in (0, 1):
+    add(Unit(name="c01_kasumi_f8_bytes" + ("_inplace" if _ip else ""), harness="c01_kasumi.c", entry="h_kasumi_f8", props={"C01": "tag", "C07": "tag"}, dfcc=False,
+             defines=["KAS_MAXB=44"] + (["KAS_INPLACE"] if _ip else []), replace_calls=[("kasumi_1_block", "contract_kasumi_1_block")], unwind=54, timeout=900,
+             checks=("--no-standard-checks",), probes=["last block of the longest message"],
+             bounded="messages of 1..44 bytes (5 full blocks + every partial last block); chaining for all lengths is unit c01_kasumi_f8_chain",
+             functions=["kasumi_f8_1_buffer", "xor_keystrm_rev", "memcpy_keystrm"], sources=["lib/include/kasumi_internal.h", "lib/include/wireless_common.h"],
+             trusted=["kasumi_1_block replaced by a checking contract model"],
+             slice="output bytes: xor with the own block's keystream, partial last block, nothing at or beyond the length; " + ("in place" if _ip else "separate buffers")))
+
+
+# ---------------------------------------------------------------- C09 synchronous cipher burst
+SLICES["C09"] = SLICES.get("C09", "") + "; synchronous cipher burst (mb_mgr_burst.h) on the real per-variant unit: all jobs completed on return, each job processed once, kernels of the burst's suite (bounded burst size)"
+for _arch in ("sse_t1", "avx2_t2", "avx512_t2", "avx2_t1", "avx512_t1", "sse_t2", "sse_t3", "avx2_t3", "avx2_t4"):
+    if _arch not in ARCHS:
+        continue
+    _f = ARCHS[_arch][0]
+    _rm = ["submit_hash_burst_and_check", "submit_aead_burst_and_check", "submit_burst_and_check"] + \
+          [unit_macro(_arch, m) for m in ("FLUSH_BURST", "GET_NEXT_BURST", "FLUSH_JOB", "SUBMIT_JOB", "SUBMIT_JOB_NOCHECK")]
+    add(Unit(name="c09_cipher_burst_%s" % _arch, harness="c09_sync_burst.c", entry="h_cipher_burst",
+             props={"C09": "tag", "C05": "tag", "C06": "tag", "C14": "tag", "C12": "tag"}, dfcc=False, add_library=False, autostub=True,
+             remove_bodies=_rm, stub_src=["stubs/empty.c"],
+             defines=['UNIT_FILE="%s"' % _f, "VARIANT_INIT=init_mb_mgr_%s_internal" % _arch,
+                      "SUBMIT_CIPHER_BURST_NOCHECK_FN=%s" % unit_macro(_arch, "SUBMIT_CIPHER_BURST_NOCHECK")],
+             checks=("--no-standard-checks",), unwind=10, timeout=1800, tier=("quick" if _arch in ("sse_t1", "avx512_t2") else "thorough"),
+             probes=["full CBC-192 encrypt burst", "CTR burst reachable"],
+             functions=["submit_cipher_burst_and_check", "submit_aes_{cbc,ctr,ecb,cfb}_burst_* of " + _arch],
+             trusted=["every function without a C body: generated stub classified by symbol name (vlib/stubgen.py)",
+                      "out-of-order managers behind submit/flush kernels: multi-job lane model in the harness (a flush returns a parked job while one exists)"],
+             bounded="burst size 0..3 jobs", sources=["lib/" + _f, "lib/include/mb_mgr_burst.h"],
+             slice="synchronous cipher burst, every cipher mode / direction / key size (variant %s)" % _arch))
+    _rm2 = ["submit_cipher_burst_and_check", "submit_aead_burst_and_check", "submit_burst_and_check"] + \
+           [unit_macro(_arch, m) for m in ("FLUSH_BURST", "GET_NEXT_BURST", "FLUSH_JOB", "SUBMIT_JOB", "SUBMIT_JOB_NOCHECK")]
+    add(Unit(name="c09_hash_burst_%s" % _arch, harness="c09_sync_burst.c", entry="h_hash_burst",
+             props={"C09": "tag", "C05": "tag", "C06": "tag", "C14": "tag", "C12": "tag"}, dfcc=False, add_library=False, autostub=True,
+             remove_bodies=_rm2, stub_src=["stubs/empty.c"],
+             defines=['UNIT_FILE="%s"' % _f, "VARIANT_INIT=init_mb_mgr_%s_internal" % _arch],
+             checks=("--no-standard-checks",), unwind=10, timeout=1800, tier=("quick" if _arch in ("sse_t1", "avx512_t2") else "thorough"),
+             probes=["full HMAC-SHA-384 burst", "CMAC-256 burst reachable"],
+             functions=["submit_hash_burst_and_check", "submit_burst_hmac_sha_x", "submit_burst_sha_x", "submit_aes_cmac_burst of " + _arch],
+             trusted=["every function without a C body: generated stub classified by symbol name (vlib/stubgen.py)",
+                      "out-of-order managers behind submit/flush kernels: multi-job lane model in the harness (a flush returns a parked job while one exists)"],
+             bounded="burst size 0..3 jobs", sources=["lib/" + _f, "lib/include/mb_mgr_burst.h"],
+             slice="synchronous hash burst, every hash algorithm (variant %s)" % _arch))
+
+
+# ---------------------------------------------------------------- C01 CBC drivers, any length (loop contracts)
+for _k, _fn in enumerate(("des_enc_cbc_basic", "des_dec_cbc_basic", "des3_enc_cbc_basic", "des3_dec_cbc_basic")):
+    add(Unit(name="c01_cbc_any_len_" + _fn.replace("_cbc_basic", ""), harness="c01_cbc_unbounded.c", entry="h_cbc_unbounded", props={"C01": "tag", "C07": "tag", "C14": "tag"},
+             dfcc=False, loopgen="c01_cbc_%d" % _k, defines=["CBC_FN=%d" % _k], replace_calls=[("enc_dec_1", "contract_enc_dec_1")], unwind=3, timeout=1200, mem_gb=16,
+             checks=("--no-standard-checks",), probes=["1000-block in-place message"], min_obligations=10,
+             functions=[_fn], sources=["lib/x86_64/des_basic.c"],
+             trusted=["enc_dec_1 replaced by a checking contract model (arbitrary result); its equality with FIPS 46-3 is unit c01_des_block",
+                      "message limited to 2^20 blocks only to keep the harness arrays finite (the loop is closed by an invariant, not unwound)"],
+             slice="CBC chaining / TDEA composition for every message length and every block index, in place or not (loop contract generated per run)"))
+
+
+# ---------------------------------------------------------------- C02/C07 KASUMI f9 (C code shared by all variants)
+add(Unit(name="c02_kasumi_f9", harness="c02_kasumi_f9.c", entry="h_kasumi_f9", props={"C02": "tag", "C07": "tag+safety"}, dfcc=False, loopgen="c02_kasumi_f9",
+         replace_calls=[("kasumi_1_block", "contract_kasumi_1_block")], unwind=10, timeout=1200, mem_gb=16,
+         checks=("--no-standard-checks", "--pointer-check", "--bounds-check"), probes=["1003-byte message"], min_obligations=10,
+         functions=["kasumi_f9_1_buffer", "kasumi_f9_1_buffer_sse"], sources=["lib/include/kasumi_internal.h", "lib/sse_t1/kasumi_sse.c"],
+         trusted=["kasumi_1_block (TS 35.202) replaced by a checking contract model", "safe_memcpy (NASM) modelled as a byte copy of exactly the requested size"],
+         slice="f9 chaining, tail handling, MAC extraction for every accepted length (loop contract); reads confined to the message object (pointer checks on)"))
